@@ -84,8 +84,10 @@ var templateNodeParsers = []parse.Parser[Node]{
 }
 
 func (p templateNodeParser[T]) Parse(pi *parse.Input) (op Nodes, ok bool, err error) {
+	vf := verifEnter()
 outer:
 	for {
+		verifIter(pi, "templateNodeParser", vf)
 		// Check if we've reached the end.
 		if p.until != nil {
 			start := pi.Index()
